@@ -433,6 +433,10 @@ func runPlanner(t *testing.T, id string) {
 			pq := q
 			pr.evalRealloc(&planCase{Node: s, Place: &pq, Req: genReallocDelta(r, s, q), Via: "plugin-realloc"})
 		}
+		if id == "C05" && bind {
+			pq := q
+			pr.evalRealloc(&planCase{Node: s, Place: &pq, Req: genC05ReallocDelta(r, s), Via: "plugin-realloc"})
+		}
 	}
 	// minimum-observation thresholds are run-level (all batches merged): MIN_OBSERVED in checks_table.py, applied by the driver
 }
@@ -469,10 +473,46 @@ func (pr *plannerRun) evalRealloc(c *planCase) {
 		return
 	}
 	pr.rec.Eval()
-	if pr.guarded(c, "CalculateRealloc", func() { _, err = pl.CalculateRealloc(ctx, pr.node, resp.WorkloadsResource[0], c.Req.raw()) }) {
+	var rr *plugintypes.CalculateReallocResponse
+	if pr.guarded(c, "CalculateRealloc", func() { rr, err = pl.CalculateRealloc(ctx, pr.node, resp.WorkloadsResource[0], c.Req.raw()) }) {
 		pr.rec.Count("realloc_calls", 1)
 		pr.rec.Nontrivial("realloc/" + c.norm() + "/" + c.Place.norm())
+		// C05: whatever a re-allocation grants to a bound workload is again an exact amount - the recorded cpu
+		// request, rounded to the nearest piece, as whole cores plus at most one fractional core
+		if pr.id == "C05" && err == nil && rr != nil {
+			nw := &cpumemtypes.WorkloadResource{}
+			if perr := nw.Parse(rr.WorkloadResource); perr == nil && len(nw.CPUMap) > 0 {
+				pr.rec.Count("bound_reallocs_checked", 1)
+				if c.Req.CPUReq == 0 && c.Req.CPULim != 0 {
+					pr.rec.Count("bound_reallocs_checked/limit-only-delta", 1)
+				}
+				if v := exactCPU(s.ShareBase, nw.CPURequest, nw); v != nil {
+					pr.rec.Violation("realloc/"+v.key, "re-allocated bound workload: "+v.what+fmt.Sprintf(" (delta %s)", c.Req.norm()), c)
+				}
+			}
+		}
 	}
+}
+
+// genC05ReallocDelta draws re-allocation deltas on the share-base grid, request and limit independently.
+func genC05ReallocDelta(r *rand.Rand, s *nodeState) wlRequest {
+	base := float64(s.ShareBase)
+	g := func() float64 { return float64(r.Intn(int(2*base))-int(base/2)) / base }
+	d := wlRequest{KeepBind: r.Intn(3) != 0, Bind: r.Intn(4) == 0, MemReq: int64(r.Intn(5) - 2)}
+	switch r.Intn(5) {
+	case 0: // limit only
+		d.CPULim = float64(1+r.Intn(int(base))) / base
+	case 1: // request only
+		d.CPUReq = g()
+	case 2: // nothing
+	default:
+		d.CPUReq = g()
+		d.CPULim = d.CPUReq
+		if r.Intn(3) == 0 {
+			d.CPULim += float64(r.Intn(int(base))) / base
+		}
+	}
+	return d
 }
 
 func genReallocDelta(r *rand.Rand, s *nodeState, placed wlRequest) wlRequest {
